@@ -467,8 +467,12 @@ class BaseDocutilsDirective(tinydocutils.directives.Directive):
                 targets = []
                 for arg_id in self.parse_options(self.arguments[0]):
                     if isinstance(arg_id, ValueError):
+                        # An empty part ("--foo, , --bar") must still give the reporter a
+                        # message: a system message without text has no paragraph child.
                         node.append(
-                            self.state.document.reporter.error(str(arg_id), line=line)
+                            self.state.document.reporter.error(
+                                str(arg_id) or "Empty option name", line=line
+                            )
                         )
                         continue
                     targets.append((prefix + arg_id, arg_id))
